@@ -81,7 +81,7 @@ ComputeBroken(S, c) ==
                                                 /\ InSeq(o.tkey[1], DataOf(S, p1).b) /\ InSeq(o.tkey[2], DataOf(S, p2).b)) )
 
 \* ---- announcing pending changes of a source (SaveState -> OnSourceChange -> UpdateOnSrcChange -> UpdateHashes -> OnCoreChange)
-RECURSIVE Sync(_, _), OnCoreChange(_, _), CheckOp(_, _), MarkChildren(_, _, _)
+RECURSIVE Sync(_, _), OnCoreChange(_, _), CheckOp(_, _), MarkChildren(_, _, _), Reopen(_, _)
 Sync(S, q) ==
   IF ~S.hand[q].linked \/ S.store[S.hand[q].name].saved THEN S
   ELSE LET s == S.hand[q].name
@@ -93,9 +93,17 @@ Sync(S, q) ==
 MarkChildren(S, cs, i) == IF i > Len(cs) THEN S
                           ELSE LET S1 == CheckOp(S, cs[i]) IN MarkChildren([S1 EXCEPT !.oper[cs[i]].outdated = TRUE], cs, i + 1)
 OnCoreChange(S, q) == MarkChildren(S, SortedSeq(ChildrenOf(S, q)), 1)
+\* DataFor -> OpenSrc: a source that was closed is opened again and re-connected (nothing is imported); what the handle missed
+\* while the source was closed shows as a difference of the hash
+Reopen(S, q) ==
+  IF ~HasData(S, q) \/ S.hand[q].linked THEN S
+  ELSE LET new == Core(S, S.hand[q].name)
+           S1 == [S EXCEPT !.hand[q].linked = TRUE, !.hand[q].hash = new]
+       IN IF S.hand[q].hash # new /\ ~S.dnd THEN OnCoreChange(S1, q) ELSE S1
+\* CallFor: each parent's pending change is announced and its data fetched (which re-opens a closed source), in parent order
 CheckOp(S, c) ==
-  LET S1 == Sync(S, S.par[c][1])
-      S2 == Sync(S1, S.par[c][2])
+  LET S1 == Reopen(Sync(S, S.par[c][1]), S.par[c][1])
+      S2 == Reopen(Sync(S1, S.par[c][2]), S.par[c][2])
   IN [S2 EXCEPT !.oper[c].broken = ComputeBroken(S2, c)]
 
 \* ---- status as reported (ossOperationsFacet::StatusOf)
@@ -141,7 +149,7 @@ ConnectNew(S, p, s, n0) ==
        IN IF S0.hand[p].hash # new THEN OnCoreChange(S2, p) ELSE S2
 \* the user edits the schema held by the source of p; nothing is announced yet
 CanEdit(S, p, kind) ==
-  /\ p \in Picts(S) /\ S.hand[p].linked
+  /\ p \in Picts(S) /\ HasData(S, p)                  \* the source may be closed: it is edited all the same (elsewhere)
   /\ CASE kind = "addBase" -> ~IsOp(S, p) /\ Len(DataOf(S, p).b) < 3
        [] kind = "removeBase" -> ~IsOp(S, p) /\ Len(DataOf(S, p).b) >= 2
        [] kind = "removeFirst" -> ~IsOp(S, p) /\ Len(DataOf(S, p).b) >= 2
@@ -158,7 +166,21 @@ Edit(S, p, kind) ==
 \* the environment makes the source of p read-only
 Lock(S, p) == IF p \in Picts(S) /\ HasData(S, p) THEN [S EXCEPT !.store[S.hand[p].name].locked = TRUE] ELSE S
 \* the source manager announces the pending change of p's source
-Save(S, p) == IF p \in Picts(S) THEN Sync(S, p) ELSE S
+\* (for a closed source nobody listens: the change is simply saved)
+Save(S, p) == IF p \notin Picts(S) \/ ~HasData(S, p) THEN S
+              ELSE IF S.hand[p].linked THEN Sync(S, p) ELSE [S EXCEPT !.store[S.hand[p].name].saved = TRUE]
+\* the source manager closes the source of p: its state is announced a last time, then the handle keeps only name and hash
+CloseSrc(S, p) ==
+  IF p \notin Picts(S) \/ ~S.hand[p].linked THEN S
+  ELSE LET s == S.hand[p].name
+           new == Core(S, s)
+           S1 == [S EXCEPT !.hand[p].hash = new]
+           S2 == IF S.hand[p].hash # new /\ ~S.dnd THEN OnCoreChange(S1, p) ELSE S1
+       IN [S2 EXCEPT !.hand[p].linked = FALSE, !.store[s].saved = TRUE]
+\* the source manager opens a closed source again: the schema imports it into the pictogram whose handle names it
+OpenSrc(S, p) ==
+  IF p \notin Picts(S) \/ ~HasData(S, p) \/ S.hand[p].linked THEN S
+  ELSE Reopen([S EXCEPT !.store[S.hand[p].name].saved = TRUE], p)
 
 \* the document is saved, the schema object and its sources are closed, and the document is loaded again (items in any order),
 \* the sources are re-opened on demand: nothing the schema reports may change.  Only taken when nothing is pending.
@@ -207,7 +229,7 @@ Execute(S, p, newSrc, autoDiscard) ==
   IF S1.oper[p].broken THEN [ok |-> FALSE, S |-> S1]
   ELSE
     LET d1 == DataOf(S1, S1.par[p][1])  d2 == DataOf(S1, S1.par[p][2])
-        S2 == IF HasData(S1, p) THEN Sync(S1, p) ELSE S1                    \* AggregateVersions saves the old result first
+        S2 == IF HasData(S1, p) THEN Sync(Reopen(S1, p), p) ELSE S1         \* AggregateVersions fetches (re-opens) and saves the old result first
         carried == IF HasData(S2, p) THEN DataOf(S2, p).e ELSE {}           \* the user's own additions are carried over
         content == [b |-> SynthBases(S2, p), ax |-> [k \in 1..Len(SynthBases(S2, p)) |-> k], nextk |-> 1, u |-> d1.u \cup d1.e \cup d2.u \cup d2.e, e |-> carried,
                     txt |-> 0, saved |-> TRUE, locked |-> FALSE]
@@ -241,7 +263,8 @@ Structure(S) ==
                               /\ S.par[p][1] \in Picts(S) /\ S.par[p][2] \in Picts(S)
                               /\ p \notin Ancestors(S, p, Cardinality(Picts(S)) + 1)
 \* when nothing is waiting to be announced: an operation that reports done was computed from its parents' current contents
-AllSaved(S) == \A p \in Picts(S) : S.hand[p].linked => S.store[S.hand[p].name].saved
+\* nothing is pending and every source is open (what happens to a closed source is not announced to the schema)
+AllSaved(S) == \A p \in Picts(S) : HasData(S, p) => (S.hand[p].linked /\ S.store[S.hand[p].name].saved)
 Expected(S, p) ==
   LET d1 == DataOf(S, S.par[p][1])  d2 == DataOf(S, S.par[p][2]) IN
   <<Len(SynthBases(S, p)), d1.u \cup d1.e \cup d2.u \cup d2.e>>
@@ -269,6 +292,8 @@ Apply(S, c) ==
     [] c.op = "Edit" -> Edit(S, c.p, c.kind)
     [] c.op = "Save" -> Save(S, c.p)
     [] c.op = "Lock" -> Lock(S, c.p)
+    [] c.op = "Close" -> CloseSrc(S, c.p)
+    [] c.op = "Open" -> OpenSrc(S, c.p)
     [] c.op = "Reload" -> Reload(S)
     [] c.op = "ShiftPict" -> ShiftPict(S, c.p, c.n)
     [] c.op = "LoadPosition" -> LoadPosition(S, c.p, <<c.a, c.b>>)
@@ -278,15 +303,16 @@ Apply(S, c) ==
 RECURSIVE ApplyAll(_, _, _)
 ApplyAll(S, cs, i) == IF i > Len(cs) THEN S ELSE ApplyAll(Apply(S, cs[i]), cs, i + 1)
 
+\* every closed source is opened again and every pending change announced (pictograms in ascending order)
 SaveAll(S) == LET ps == SortedSeq(Picts(S))
                   RECURSIVE F(_, _)
-                  F(T, i) == IF i > Len(ps) THEN T ELSE F(Save(T, ps[i]), i + 1)
+                  F(T, i) == IF i > Len(ps) THEN T ELSE F(Save(OpenSrc(T, ps[i]), ps[i]), i + 1)
               IN F(S, 1)
 View(S) ==
   LET ps == SortedSeq(Picts(S)) IN
   [i \in DOMAIN ps |-> LET p == ps[i] IN
      [pid |-> p, parents |-> S.par[p], row |-> S.cell[p][1], col |-> S.cell[p][2], isOp |-> IsOp(S, p), hasData |-> HasData(S, p),
-      status |-> StatusOf(S, p),
+      linked |-> S.hand[p].linked, status |-> StatusOf(S, p),
       broken |-> IF IsOp(S, p) THEN S.oper[p].broken ELSE FALSE, outdated |-> IF IsOp(S, p) THEN S.oper[p].outdated ELSE FALSE,
       type |-> IF IsOp(S, p) THEN S.oper[p].type ELSE "",
       n |-> IF HasData(S, p) THEN Len(DataOf(S, p).b) ELSE 0,
